@@ -25,6 +25,40 @@ fn mat_out(m: &Matrix) -> Vec<f64> {
 
 const KINDS: [&str; 4] = ["DotNN", "DotNT", "DotTN", "DotTT"];
 
+/// the 16 Matrix.Matrix impls: kind k (0 dot, 1 dot_t, 2 t_dot, 3 t_dot_t) x ownership form (0 (&M, M), 1 (&M, &M), 2 (&&M, M), 3 (&&M, &M))
+fn call_mm(k: usize, form: u64, s: &Matrix, o: &Matrix) -> Matrix {
+    match (k, form) {
+        (0, 0) => Dot::<Matrix, Matrix>::dot(s, o.clone()), (0, 1) => Dot::<&Matrix, Matrix>::dot(s, o), (0, 2) => Dot::<Matrix, Matrix>::dot(&s, o.clone()), (0, _) => Dot::<&Matrix, Matrix>::dot(&s, o),
+        (1, 0) => Dot::<Matrix, Matrix>::dot_t(s, o.clone()), (1, 1) => Dot::<&Matrix, Matrix>::dot_t(s, o), (1, 2) => Dot::<Matrix, Matrix>::dot_t(&s, o.clone()), (1, _) => Dot::<&Matrix, Matrix>::dot_t(&s, o),
+        (2, 0) => Dot::<Matrix, Matrix>::t_dot(s, o.clone()), (2, 1) => Dot::<&Matrix, Matrix>::t_dot(s, o), (2, 2) => Dot::<Matrix, Matrix>::t_dot(&s, o.clone()), (2, _) => Dot::<&Matrix, Matrix>::t_dot(&s, o),
+        (_, 0) => Dot::<Matrix, Matrix>::t_dot_t(s, o.clone()), (_, 1) => Dot::<&Matrix, Matrix>::t_dot_t(s, o), (_, 2) => Dot::<Matrix, Matrix>::t_dot_t(&s, o.clone()), (_, _) => Dot::<&Matrix, Matrix>::t_dot_t(&s, o),
+    }
+}
+fn call_mv(k: usize, form: u64, s: &Matrix, vv: &Vector) -> Vector {
+    match (k, form) {
+        (0, 0) => Dot::<Vector, Vector>::dot(s, vv.clone()), (0, 1) => Dot::<&Vector, Vector>::dot(s, vv), (0, 2) => Dot::<Vector, Vector>::dot(&s, vv.clone()), (0, _) => Dot::<&Vector, Vector>::dot(&s, vv),
+        (1, 0) => Dot::<Vector, Vector>::dot_t(s, vv.clone()), (1, 1) => Dot::<&Vector, Vector>::dot_t(s, vv), (1, 2) => Dot::<Vector, Vector>::dot_t(&s, vv.clone()), (1, _) => Dot::<&Vector, Vector>::dot_t(&s, vv),
+        (2, 0) => Dot::<Vector, Vector>::t_dot(s, vv.clone()), (2, 1) => Dot::<&Vector, Vector>::t_dot(s, vv), (2, 2) => Dot::<Vector, Vector>::t_dot(&s, vv.clone()), (2, _) => Dot::<&Vector, Vector>::t_dot(&s, vv),
+        (_, 0) => Dot::<Vector, Vector>::t_dot_t(s, vv.clone()), (_, 1) => Dot::<&Vector, Vector>::t_dot_t(s, vv), (_, 2) => Dot::<Vector, Vector>::t_dot_t(&s, vv.clone()), (_, _) => Dot::<&Vector, Vector>::t_dot_t(&s, vv),
+    }
+}
+fn call_vm(k: usize, form: u64, vv: &Vector, o: &Matrix) -> Vector {
+    match (k, form) {
+        (0, 0) => Dot::<Matrix, Vector>::dot(vv, o.clone()), (0, 1) => Dot::<&Matrix, Vector>::dot(vv, o), (0, 2) => Dot::<Matrix, Vector>::dot(&vv, o.clone()), (0, _) => Dot::<&Matrix, Vector>::dot(&vv, o),
+        (1, 0) => Dot::<Matrix, Vector>::dot_t(vv, o.clone()), (1, 1) => Dot::<&Matrix, Vector>::dot_t(vv, o), (1, 2) => Dot::<Matrix, Vector>::dot_t(&vv, o.clone()), (1, _) => Dot::<&Matrix, Vector>::dot_t(&vv, o),
+        (2, 0) => Dot::<Matrix, Vector>::t_dot(vv, o.clone()), (2, 1) => Dot::<&Matrix, Vector>::t_dot(vv, o), (2, 2) => Dot::<Matrix, Vector>::t_dot(&vv, o.clone()), (2, _) => Dot::<&Matrix, Vector>::t_dot(&vv, o),
+        (_, 0) => Dot::<Matrix, Vector>::t_dot_t(vv, o.clone()), (_, 1) => Dot::<&Matrix, Vector>::t_dot_t(vv, o), (_, 2) => Dot::<Matrix, Vector>::t_dot_t(&vv, o.clone()), (_, _) => Dot::<&Matrix, Vector>::t_dot_t(&vv, o),
+    }
+}
+fn call_vv(k: usize, form: u64, a: &Vector, b: &Vector) -> f64 {
+    match (k, form) {
+        (0, 0) => Dot::<Vector, f64>::dot(a, b.clone()), (0, 1) => Dot::<&Vector, f64>::dot(a, b), (0, 2) => Dot::<Vector, f64>::dot(&a, b.clone()), (0, _) => Dot::<&Vector, f64>::dot(&a, b),
+        (1, 0) => Dot::<Vector, f64>::dot_t(a, b.clone()), (1, 1) => Dot::<&Vector, f64>::dot_t(a, b), (1, 2) => Dot::<Vector, f64>::dot_t(&a, b.clone()), (1, _) => Dot::<&Vector, f64>::dot_t(&a, b),
+        (2, 0) => Dot::<Vector, f64>::t_dot(a, b.clone()), (2, 1) => Dot::<&Vector, f64>::t_dot(a, b), (2, 2) => Dot::<Vector, f64>::t_dot(&a, b.clone()), (2, _) => Dot::<&Vector, f64>::t_dot(&a, b),
+        (_, 0) => Dot::<Vector, f64>::t_dot_t(a, b.clone()), (_, 1) => Dot::<&Vector, f64>::t_dot_t(a, b), (_, 2) => Dot::<Vector, f64>::t_dot_t(&a, b.clone()), (_, _) => Dot::<&Vector, f64>::t_dot_t(&a, b),
+    }
+}
+
 pub fn gen(tier: &str, seed: u64, outdir: &str) {
     let mut r = Rng::new(seed);
     let mut cs = Cases::new("C05");
@@ -148,8 +182,96 @@ pub fn gen(tier: &str, seed: u64, outdir: &str) {
                     &format!("dot/VV/{}", KINDS[k]), vlen >= 2);
         }
     }
+    // 5. (coverage audit) what sections 1-4 do not draw: xtx on every small integer shape; block sizes beyond 2*max; entries of very different
+    //    magnitude (products that underflow, sums that cancel); the Dot trait on larger operands with real entries, mismatches in both directions,
+    //    the 0x0 matrix; Vector.Vector at every length 0..=40 (every residue mod 8 around the unrolled part)
+    for k in 1..=maxd { for c in 1..=maxd {
+        let x = ints(&mut r, k * c);
+        let res = catch(|| xtx(&x, k));
+        cs.push(app("CXtx", vec![fl(&x), Tm::Nat(k as u64), outcome_list(&res)]), "xtx/int", k >= 2 && c >= 2);
+    }}
+    let nwide = if thorough { 150 } else { 30 };
+    let maxw = if thorough { 40 } else { 12 };
+    for it in 0..nwide {
+        let (m, l, n) = (1 + r.below(maxw) as usize, 1 + r.below(maxw) as usize, 1 + r.below(maxw) as usize);
+        let (ta, tb) = (it & 1 == 1, it & 2 == 2);
+        let (ra, ca, rb, cb) = shapes(ta, tb, m, l, n);
+        let a = wide(&mut r, ra * ca); let b = wide(&mut r, rb * cb);
+        let res = catch(|| matmul(&a, &b, ra, rb, ta, tb));
+        cs.push(app("CMatmul", vec![fl(&a), fl(&b), Tm::Nat(ra as u64), Tm::Nat(rb as u64), Tm::B(ta), Tm::B(tb), outcome_list(&res)]), "matmul/wide", true);
+        let maxb = 2 * m.max(l).max(n);
+        let bs = *r.pick(&[m, l, n, maxb, maxb + 1, maxb + 7, 1000]);
+        let res = catch(|| matmul_blocked(&a, &b, ra, rb, ta, tb, bs));
+        cs.push(app("CBlocked", vec![fl(&a), fl(&b), Tm::Nat(ra as u64), Tm::Nat(rb as u64), Tm::B(ta), Tm::B(tb), Tm::Nat(bs as u64), outcome_list(&res)]), "blocked/wide", true);
+    }
+    let nbig = if thorough { 160 } else { 24 };
+    let maxg = if thorough { 48 } else { 16 };
+    for it in 0..nbig {
+        let k = it % 4; let (ta, tb) = (k & 2 == 2, k & 1 == 1);
+        let (m, l, n) = (1 + r.below(maxg) as usize, 1 + r.below(maxg) as usize, 1 + r.below(maxg) as usize);
+        let delta: i64 = match it % 5 { 3 => 1, 4 => -1, _ => 0 };   // inner dimension of the right operand off by one, either direction
+        let l2 = ((l as i64 + delta).max(1)) as usize;
+        let cls = (it / 4) as u64 % 2 + 1;
+        // Matrix . Matrix
+        let (sr, sc) = if ta { (l, m) } else { (m, l) }; let (or, oc) = if tb { (n, l2) } else { (l2, n) };
+        let sd = entries(&mut r, cls, sr * sc); let od = entries(&mut r, cls, or * oc);
+        let s = Matrix::new(sd.clone(), sr as i32, sc as i32); let o = Matrix::new(od.clone(), or as i32, oc as i32);
+        let form = r.below(4);
+        let res = catch(|| mat_out(&call_mm(k, form, &s, &o)));
+        cs.push(app("CDotMM", vec![Tm::Raw(KINDS[k].into()), Tm::Nat(form), Tm::Nat(sr as u64), Tm::Nat(sc as u64), fl(&sd), Tm::Nat(or as u64), Tm::Nat(oc as u64), fl(&od), outcome_list(&res)]),
+                &format!("dot-large/MM/{}", KINDS[k]), true);
+        // Matrix . Vector and Vector . Matrix
+        let v = entries(&mut r, cls, l2); let vv = Vector::new(v.clone());
+        let form = r.below(4);
+        let res = catch(|| call_mv(k, form, &s, &vv).v);
+        cs.push(app("CDotMV", vec![Tm::Raw(KINDS[k].into()), Tm::Nat(form), Tm::Nat(sr as u64), Tm::Nat(sc as u64), fl(&sd), fl(&v), outcome_list(&res)]),
+                &format!("dot-large/MV/{}", KINDS[k]), true);
+        let (or, oc) = if tb { (n, l) } else { (l, n) };
+        let od = entries(&mut r, cls, or * oc); let o = Matrix::new(od.clone(), or as i32, oc as i32);
+        let form = r.below(4);
+        let res = catch(|| call_vm(k, form, &vv, &o).v);
+        cs.push(app("CDotVM", vec![Tm::Raw(KINDS[k].into()), Tm::Nat(form), fl(&v), Tm::Nat(or as u64), Tm::Nat(oc as u64), fl(&od), outcome_list(&res)]),
+                &format!("dot-large/VM/{}", KINDS[k]), true);
+    }
+    for len in 0..=40usize { for cls in 1..=2u64 {
+        let k = (len + cls as usize) % 4; let form = r.below(4);
+        let wl = if len % 5 == 4 { len + 1 } else { len };
+        let v = entries(&mut r, cls, len); let w = entries(&mut r, cls, wl);
+        let (a, b) = (Vector::new(v.clone()), Vector::new(w.clone()));
+        let res = catch(|| call_vv(k, form, &a, &b)).map(|x| vec![x]);
+        cs.push(app("CDotVV", vec![Tm::Raw(KINDS[k].into()), Tm::Nat(form), fl(&v), fl(&w), outcome_list(&res)]), &format!("dot-len/VV/{}", KINDS[k]), len >= 2);
+    }}
+    // special values (+-0, +-inf, NaN, the smallest subnormal, the largest finite number): the model must reproduce signed zeros, inf - inf and 0 * inf bit for bit
+    let nspec = if thorough { 300 } else { 40 };
+    for it in 0..nspec {
+        const SPECIAL: [f64; 10] = [0.0, -0.0, f64::INFINITY, f64::NEG_INFINITY, f64::NAN, 5e-324, -5e-324, f64::MAX, -f64::MAX, 1.0];
+        let mut sp = |r: &mut Rng, n: usize| -> Vec<f64> { (0..n).map(|_| if r.coin(0.5) { *r.pick(&SPECIAL) } else { r.small_int(3) }).collect() };
+        let (m, l, n) = (1 + r.below(5) as usize, 1 + r.below(5) as usize, 1 + r.below(5) as usize);
+        let (ta, tb) = (it & 1 == 1, it & 2 == 2);
+        let (ra, ca, rb, cb) = shapes(ta, tb, m, l, n);
+        let a = sp(&mut r, ra * ca); let b = sp(&mut r, rb * cb);
+        let res = catch(|| matmul(&a, &b, ra, rb, ta, tb));
+        cs.push(app("CMatmul", vec![fl(&a), fl(&b), Tm::Nat(ra as u64), Tm::Nat(rb as u64), Tm::B(ta), Tm::B(tb), outcome_list(&res)]), "matmul/special-values", true);
+        let bs = 1 + r.below(2 * m.max(l).max(n) as u64) as usize;
+        let res = catch(|| matmul_blocked(&a, &b, ra, rb, ta, tb, bs));
+        cs.push(app("CBlocked", vec![fl(&a), fl(&b), Tm::Nat(ra as u64), Tm::Nat(rb as u64), Tm::B(ta), Tm::B(tb), Tm::Nat(bs as u64), outcome_list(&res)]), "blocked/special-values", true);
+        let (x, y) = (sp(&mut r, 8 + l), sp(&mut r, 8 + l));
+        let res = catch(|| call_vv(it % 4, 1, &Vector::new(x.clone()), &Vector::new(y.clone()))).map(|v| vec![v]);
+        cs.push(app("CDotVV", vec![Tm::Raw(KINDS[it % 4].into()), Tm::Nat(1), fl(&x), fl(&y), outcome_list(&res)]), "dot/VV/special-values", true);
+    }
+    // the 0x0 matrix (accepted by Matrix::new since the reshape repair) and an empty vector: every product with them panics
+    for k in 0..4usize {
+        let e = Matrix::new(Vec::<f64>::new(), 0, 0); let one = Matrix::new(vec![1.0, 2.0], 1, 2);
+        let res = catch(|| mat_out(&call_mm(k, 1, &e, &e)));
+        cs.push(app("CDotMM", vec![Tm::Raw(KINDS[k].into()), Tm::Nat(1), Tm::Nat(0), Tm::Nat(0), fl(&[]), Tm::Nat(0), Tm::Nat(0), fl(&[]), outcome_list(&res)]), "dot-empty", true);
+        let ev = Vector::new(Vec::<f64>::new());
+        let res = catch(|| call_mv(k, 1, &one, &ev).v);
+        cs.push(app("CDotMV", vec![Tm::Raw(KINDS[k].into()), Tm::Nat(1), Tm::Nat(1), Tm::Nat(2), fl(&[1.0, 2.0]), fl(&[]), outcome_list(&res)]), "dot-empty", true);
+        let res = catch(|| call_vm(k, 1, &ev, &one).v);
+        cs.push(app("CDotVM", vec![Tm::Raw(KINDS[k].into()), Tm::Nat(1), fl(&[]), Tm::Nat(1), Tm::Nat(2), fl(&[1.0, 2.0]), outcome_list(&res)]), "dot-empty", true);
+    }
     cs.write(outdir, 400,
-             "exhaustive shapes m,l,n in 1..=5 (quick) / 1..=9 (thorough) x 4 transpose flags with integer entries for matmul and matmul_blocked (random / all block sizes), random real shapes, a malformed stream (arbitrary lengths, row counts, block size 0), and the 16 Dot impl families x 4 ownership forms; non-trivial = all three dimensions >= 2 or a transpose flag set (products), a panic (malformed stream), any Dot-trait case; distinct by hash of the case term");
+             "exhaustive shapes m,l,n in 1..=5 (quick) / 1..=9 (thorough) x 4 transpose flags with integer entries for matmul and matmul_blocked (random / all block sizes), random real shapes, a malformed stream (arbitrary lengths, row counts, block size 0), the 16 Dot impl families x 4 ownership forms (small integer operands, then larger real operands with mismatches in both directions and the 0x0 matrix), xtx on every small integer shape, entries of very different magnitude (underflowing products) with block sizes beyond 2*max, Vector.Vector at every length 0..=40, special values (signed zeros, infinities, NaN, extreme magnitudes); non-trivial = all three dimensions >= 2 or a transpose flag set (products), a panic (malformed stream), any Dot-trait case; distinct by hash of the case term");
 }
 
 // ---------------------------------------------------------------------------------------------
@@ -255,5 +377,230 @@ pub fn oracle(tier: &str, seed: u64) -> (u64, Vec<Finding>) {
         }
         if out.len() > 40 { break; }
     }
+    if out.len() <= 40 { oracle_wide(tier, seed, &mut tried, &mut out); }
     (tried, out)
+}
+
+// ---------------------------------------------------------------------------------------------
+// second part of the failure search (coverage audit): the same demands (equality on integer-valued entries, the
+// gamma_l allowance on reals, a panic on every non-conformable call) evaluated on the rest of the quantifier: every shape
+// m,l,n in 1..=9 x 4 flags x every block size 1..=2*max (and block sizes beyond), real shapes up to 64, magnitudes far
+// from 1, xtx, shape mismatches in both directions and slices that are no matrix at all, all 64 impls of the Dot trait
+// (16 methods x 4 ownership forms) with matrices up to 64 and vectors of every length residue mod 8.
+
+/// entries of very different magnitude (log-uniform in 1e-150 .. 1e150, either sign, one in ten exactly zero): no product
+/// and no sum of up to 64 products overflows; products may underflow (the reference then underflows in the same way)
+fn wide(r: &mut Rng, n: usize) -> Vec<f64> {
+    (0..n).map(|_| if r.coin(0.1) { 0.0 } else { let e = r.uniform(-150.0, 150.0); let s = if r.coin(0.5) { -1.0 } else { 1.0 }; s * r.uniform(1.0, 10.0) * (10.0f64).powf(e) }).collect()
+}
+/// entry class 0: small integers (exact), 1: reals in (-4,4), 2: wide magnitudes
+fn entries(r: &mut Rng, class: u64, n: usize) -> Vec<f64> { match class { 0 => ints(r, n), 1 => reals(r, n), _ => wide(r, n) } }
+
+/// one slice-level call judged against the definition (`want` = None: the call is not conformable and must panic)
+fn judge(name: &str, want: &Option<(Vec<f64>, Vec<f64>, usize, usize)>, got: &Result<Vec<f64>, String>, integer: bool, l: usize, ta: bool, tb: bool, input: &str, out: &mut Vec<Finding>) {
+    match (want, got) {
+        (None, Ok(v)) => out.push(Finding { class: format!("{}:nonconformable-accepted", name), what: format!("{} returned {} values for non-conformable shapes (must panic)", name, v.len()), input: input.to_string() }),
+        (Some((w, mag, _, _)), Ok(v)) => {
+            let ok = if integer { v == w } else { close(v, w, mag, l) };
+            if !ok { out.push(Finding { class: format!("{}:wrong-entry flags=({},{})", name, ta, tb), what: format!("{} returned {:?}, definition gives {:?}", name, v, w), input: input.to_string() }); }
+        }
+        (Some(_), Err(e)) => out.push(Finding { class: format!("{}:conformable-panics flags=({},{})", name, ta, tb), what: format!("{} panicked on conformable shapes: {}", name, e), input: input.to_string() }),
+        (None, Err(_)) => {}
+    }
+}
+fn short(v: &[f64]) -> String { json_floats(v) }
+
+fn oracle_wide(tier: &str, seed: u64, tried: &mut u64, out: &mut Vec<Finding>) {
+    let thorough = tier == "thorough";
+    let mut r = Rng::new(seed ^ 0xC05_0002);
+    // W1. every shape m,l,n in 1..=9 x 4 flags (the quantifier's exhaustive part), integer entries, equality; the blocked variant at
+    //     EVERY block size 1..=2*max and at block sizes beyond every dimension (the statement says every block size >= 1)
+    for m in 1..=9usize { for l in 1..=9usize { for n in 1..=9usize { for f in 0..4 {
+        let (ta, tb) = (f & 1 == 1, f & 2 == 2);
+        let (ra, ca, rb, cb) = shapes(ta, tb, m, l, n);
+        let a = ints(&mut r, ra * ca); let b = ints(&mut r, rb * cb);
+        let want = naive(&a, &b, ra, ca, rb, cb, ta, tb);
+        let input = format!("a={} b={} rows_a={} rows_b={} transpose_a={} transpose_b={}", json_floats(&a), json_floats(&b), ra, rb, ta, tb);
+        crumb(&input);
+        *tried += 1;
+        judge("matmul", &want, &catch(|| matmul(&a, &b, ra, rb, ta, tb)), true, l, ta, tb, &input, out);
+        let maxb = 2 * m.max(l).max(n);
+        for bs in (1..=maxb).chain([maxb + 1, 1000, usize::MAX / 2, usize::MAX]) {
+            let inp = format!("{} bsize={}", input, bs);
+            crumb(&inp);
+            *tried += 1;
+            judge("matmul_blocked", &want, &catch(|| matmul_blocked(&a, &b, ra, rb, ta, tb, bs)), true, l, ta, tb, &inp, out);
+        }
+        if out.len() > 40 { return; }
+    }}}}
+    // W2. xtx = X^T X for every shape k x c in 1..=9 (integer entries: equal to the definition and exactly symmetric)
+    for k in 1..=9usize { for c in 1..=9usize {
+        let x = ints(&mut r, k * c);
+        let want = naive(&x, &x, k, c, k, c, true, false);
+        let input = format!("xtx x={} k={}", json_floats(&x), k);
+        crumb(&input);
+        *tried += 1;
+        let got = catch(|| xtx(&x, k));
+        judge("xtx", &want, &got, true, k, true, false, &input, out);
+        if let Ok(g) = &got { if g.len() == c * c && (0..c).any(|i| (0..c).any(|j| g[i * c + j] != g[j * c + i])) {
+            out.push(Finding { class: "xtx:not-symmetric".into(), what: format!("xtx returned {:?}, not a symmetric matrix", g), input: input.clone() }); } }
+        // a slice whose length is no multiple of k is no matrix with k rows: must panic
+        if k >= 2 { let mut y = x.clone(); y.push(1.0); *tried += 1;
+            let inp = format!("xtx x={} k={}", json_floats(&y), k); crumb(&inp);
+            judge("xtx", &None, &catch(|| xtx(&y, k)), true, k, true, false, &inp, out); }
+    }}
+    // W3. shapes up to 64 (the quantifier's random part; the first loop stops at 24), three entry classes, flags, block sizes 1..=2*max and the
+    //     dimensions themselves, shape mismatches in both directions; the same operands through the Dot trait (a random impl) and through xtx
+    let n3 = if thorough { 500 } else { 45 };
+    for it in 0..n3 {
+        let dim = |r: &mut Rng| if r.coin(0.7) { 25 + r.below(40) as usize } else { 1 + r.below(64) as usize };
+        let (m, l, n) = match it % 8 { 0 => (64, 64, 64), 1 => (1, 64, 1), 2 => (64, 1, 64), _ => (dim(&mut r), dim(&mut r), dim(&mut r)) };
+        let f = it % 4; let (ta, tb) = (f & 1 == 1, f & 2 == 2);
+        let (ra, ca, mut rb, mut cb) = shapes(ta, tb, m, l, n);
+        if it % 8 > 2 && r.coin(0.15) { // inner dimension of b off by one or two, in either direction
+            let d = 1 + r.below(2) as usize; let inner = if tb { &mut cb } else { &mut rb };
+            if r.coin(0.5) && *inner > d { *inner -= d } else { *inner += d }
+        }
+        let class = (it / 4) as u64 % 3;
+        let a = entries(&mut r, class, ra * ca); let b = entries(&mut r, class, rb * cb);
+        let want = naive(&a, &b, ra, ca, rb, cb, ta, tb);
+        let maxd = m.max(l).max(n);
+        let bs = match r.below(5) { 0 => m, 1 => l, 2 => n, 3 => 2 * maxd, _ => 1 + r.below(2 * maxd as u64) as usize };
+        let input = format!("a={} b={} rows_a={} rows_b={} transpose_a={} transpose_b={} bsize={}", short(&a), short(&b), ra, rb, ta, tb, bs);
+        crumb(&input);
+        *tried += 2;
+        judge("matmul", &want, &catch(|| matmul(&a, &b, ra, rb, ta, tb)), class == 0, l, ta, tb, &input, out);
+        judge("matmul_blocked", &want, &catch(|| matmul_blocked(&a, &b, ra, rb, ta, tb, bs)), class == 0, l, ta, tb, &input, out);
+        // Dot trait, one of the 4 ownership forms of the method with these flags (kind index: 0 dot, 1 dot_t, 2 t_dot, 3 t_dot_t)
+        let k = (if ta { 2 } else { 0 }) + (if tb { 1 } else { 0 }); let form = r.below(4);
+        let s = Matrix::new(a.clone(), ra as i32, ca as i32); let o = Matrix::new(b.clone(), rb as i32, cb as i32);
+        *tried += 1;
+        let got = catch(|| { let p = call_mm(k, form, &s, &o); (p.nrows, p.ncols, p.data.v.clone()) });
+        judge_mm(k, form, &want, &got, class == 0, l, &input, out);
+        // xtx of a
+        let wx = naive(&a, &a, ra, ca, ra, ca, true, false);
+        *tried += 1;
+        let inp = format!("xtx x={} k={}", short(&a), ra); crumb(&inp);
+        let gx = catch(|| xtx(&a, ra));
+        judge("xtx", &wx, &gx, class == 0, ra, true, false, &inp, out);
+        if let (Ok(g), Some((_, mag, _, _))) = (&gx, &wx) { if g.len() == ca * ca && (0..ca).any(|i| (0..ca).any(|j| (g[i * ca + j] - g[j * ca + i]).abs() > 2.0 * (ra as f64 + 2.0) * f64::EPSILON * mag[i * ca + j])) {
+            out.push(Finding { class: "xtx:not-symmetric".into(), what: "xtx returned a matrix that is not symmetric".into(), input: inp.clone() }); } }
+        if out.len() > 40 { return; }
+    }
+    // W4. slices that need not be matrices at all: arbitrary lengths and row counts (>= 1), flags, block sizes; conformable exactly when both
+    //     lengths are multiples of the row counts and the inner dimensions agree
+    let n4 = if thorough { 12000 } else { 1500 };
+    for _ in 0..n4 {
+        let (la, lb) = (1 + r.below(30) as usize, 1 + r.below(30) as usize);
+        let (ra, rb) = (1 + r.below(6) as usize, 1 + r.below(6) as usize);
+        let (ta, tb) = (r.coin(0.5), r.coin(0.5));
+        let a = ints(&mut r, la); let b = ints(&mut r, lb);
+        let bs = 1 + r.below(8) as usize;
+        let want = if la % ra == 0 && lb % rb == 0 { naive(&a, &b, ra, la / ra, rb, lb / rb, ta, tb) } else { None };
+        let input = format!("a={} b={} rows_a={} rows_b={} transpose_a={} transpose_b={} bsize={}", json_floats(&a), json_floats(&b), ra, rb, ta, tb, bs);
+        crumb(&input);
+        *tried += 2;
+        let l = if ta { ra } else { la / ra };
+        judge("matmul", &want, &catch(|| matmul(&a, &b, ra, rb, ta, tb)), true, l, ta, tb, &input, out);
+        judge("matmul_blocked", &want, &catch(|| matmul_blocked(&a, &b, ra, rb, ta, tb, bs)), true, l, ta, tb, &input, out);
+        if out.len() > 40 { return; }
+    }
+    // W5. the Dot trait: all 16 methods x 4 ownership forms of Matrix.Matrix, Matrix.Vector, Vector.Matrix, Vector.Vector
+    let n5 = if thorough { 2500 } else { 260 };
+    for it in 0..n5 {
+        let dim = |r: &mut Rng| match r.below(10) { 0 => 1, 1 => 10 + r.below(55) as usize, _ => 1 + r.below(9) as usize };
+        let (m, l, n) = (dim(&mut r), dim(&mut r), dim(&mut r));
+        let class = (it / 3) as u64 % 3; let integer = class == 0;
+        let conform = it % 3 != 2;
+        for k in 0..4usize {
+            let (ta, tb) = (k & 2 == 2, k & 1 == 1);
+            // --- Matrix . Matrix
+            let (sr, sc, mut or, mut oc) = shapes(ta, tb, m, l, n);
+            if !conform { let d = 1 + r.below(2) as usize; let inner = if tb { &mut oc } else { &mut or };
+                          if r.coin(0.5) && *inner > d { *inner -= d } else { *inner += d } }
+            let sd = entries(&mut r, class, sr * sc); let od = entries(&mut r, class, or * oc);
+            let want = naive(&sd, &od, sr, sc, or, oc, ta, tb);
+            let s = Matrix::new(sd.clone(), sr as i32, sc as i32); let o = Matrix::new(od.clone(), or as i32, oc as i32);
+            let input = format!("self={}x{} {} other={}x{} {}", sr, sc, short(&sd), or, oc, short(&od));
+            for form in 0..4u64 {
+                crumb(&format!("Matrix.{}(Matrix) form {} {}", KINDS[k], form, input));
+                *tried += 1;
+                let got = catch(|| { let p = call_mm(k, form, &s, &o); (p.nrows, p.ncols, p.data.v.clone()) });
+                judge_mm(k, form, &want, &got, integer, l, &input, out);
+            }
+            // --- Matrix . Vector (the vector is a column; a transpose flag on the vector does nothing): op(M) is m x l
+            let (sr, sc) = if ta { (l, m) } else { (m, l) };
+            let sd = entries(&mut r, class, sr * sc);
+            let s = Matrix::new(sd.clone(), sr as i32, sc as i32);
+            let vl = if conform { l } else { *r.pick(&[l + 1, l.saturating_sub(1), 2 * l, l * m, if m != l { m } else { l + 2 }, 0]) };
+            let vl = if !conform && vl == l { l + 1 } else { vl };
+            let v = entries(&mut r, class, vl); let vv = Vector::new(v.clone());
+            let want: Option<(Vec<f64>, Vec<f64>)> = if vl == l { Some((0..m).map(|i| { let (mut c, mut g) = (0.0, 0.0); for q in 0..l { let x = if ta { sd[q * sc + i] } else { sd[i * sc + q] }; c += x * v[q]; g += (x * v[q]).abs(); } (c, g) }).unzip()) } else { None };
+            let input = format!("matrix={}x{} {} vector={}", sr, sc, short(&sd), short(&v));
+            for form in 0..4u64 {
+                crumb(&format!("Matrix.{}(Vector) form {} {}", KINDS[k], form, input));
+                *tried += 1;
+                let got = catch(|| call_mv(k, form, &s, &vv).v);
+                judge_v("Dot-MV", "Matrix.Vector", k, form, &want, &got, integer, l, &input, out);
+            }
+            // --- Vector . Matrix (the vector is a row): op(O) is l x n
+            let (or, oc) = if tb { (n, l) } else { (l, n) };
+            let od = entries(&mut r, class, or * oc);
+            let o = Matrix::new(od.clone(), or as i32, oc as i32);
+            let vl = if conform { l } else { *r.pick(&[l + 1, l.saturating_sub(1), 2 * l, l * n, if n != l { n } else { l + 2 }, 0]) };
+            let vl = if !conform && vl == l { l + 1 } else { vl };
+            let v = entries(&mut r, class, vl); let vv = Vector::new(v.clone());
+            let want: Option<(Vec<f64>, Vec<f64>)> = if vl == l { Some((0..n).map(|j| { let (mut c, mut g) = (0.0, 0.0); for q in 0..l { let x = if tb { od[j * oc + q] } else { od[q * oc + j] }; c += v[q] * x; g += (v[q] * x).abs(); } (c, g) }).unzip()) } else { None };
+            let input = format!("vector={} matrix={}x{} {}", short(&v), or, oc, short(&od));
+            for form in 0..4u64 {
+                crumb(&format!("Vector.{}(Matrix) form {} {}", KINDS[k], form, input));
+                *tried += 1;
+                let got = catch(|| call_vm(k, form, &vv, &o).v);
+                judge_v("Dot-VM", "Vector.Matrix", k, form, &want, &got, integer, l, &input, out);
+            }
+            // --- Vector . Vector: every length 0..=40 in turn (every residue mod 8, below and above the 8-way unrolled part), then up to 64
+            let len = if it < 41 { it } else { r.below(65) as usize };
+            let wl = if conform { len } else if r.coin(0.5) && len > 0 { len - 1 } else { len + 1 + r.below(8) as usize };
+            let x = entries(&mut r, class, len); let y = entries(&mut r, class, wl);
+            let want: Option<(Vec<f64>, Vec<f64>)> = if wl == len { let (mut c, mut g) = (0.0, 0.0); for q in 0..len { c += x[q] * y[q]; g += (x[q] * y[q]).abs(); } Some((vec![c], vec![g])) } else { None };
+            let (xv, yv) = (Vector::new(x.clone()), Vector::new(y.clone()));
+            let input = format!("{} . {}", short(&x), short(&y));
+            for form in 0..4u64 {
+                crumb(&format!("Vector.{}(Vector) form {} {}", KINDS[k], form, input));
+                *tried += 1;
+                let got = catch(|| vec![call_vv(k, form, &xv, &yv)]);
+                judge_v("Dot-VV", "Vector.Vector", k, form, &want, &got, integer, len, &input, out);
+            }
+        }
+        if out.len() > 40 { return; }
+    }
+}
+
+const METHODS: [&str; 4] = ["dot", "dot_t", "t_dot", "t_dot_t"];
+const FORMS: [&str; 4] = ["(&T).m(U)", "(&T).m(&U)", "(&&T).m(U)", "(&&T).m(&U)"];
+
+fn judge_mm(k: usize, form: u64, want: &Option<(Vec<f64>, Vec<f64>, usize, usize)>, got: &Result<(usize, usize, Vec<f64>), String>, integer: bool, l: usize, input: &str, out: &mut Vec<Finding>) {
+    let input = format!("Matrix.{}(Matrix) form {} {}", METHODS[k], FORMS[form as usize], input);
+    let (ta, tb) = (k & 2 == 2, k & 1 == 1);
+    match (want, got) {
+        (None, Ok(_)) => out.push(Finding { class: "Dot:nonconformable-accepted".into(), what: "Matrix dot family returned a value for non-conformable shapes".into(), input }),
+        (Some((w, mag, mm, nn)), Ok((gr, gc, v))) => {
+            let ok = gr == mm && gc == nn && if integer { v == w } else { close(v, w, mag, l) };
+            if !ok { out.push(Finding { class: format!("Dot:wrong flags=({},{})", ta, tb), what: format!("Matrix dot family returned {}x{} {:?}, definition gives {}x{} {:?}", gr, gc, v, mm, nn, w), input }); }
+        }
+        (Some(_), Err(e)) => out.push(Finding { class: format!("Dot:conformable-panics flags=({},{})", ta, tb), what: format!("panicked: {}", e), input }),
+        _ => {}
+    }
+}
+fn judge_v(class: &str, name: &str, k: usize, form: u64, want: &Option<(Vec<f64>, Vec<f64>)>, got: &Result<Vec<f64>, String>, integer: bool, l: usize, input: &str, out: &mut Vec<Finding>) {
+    let input = format!("{} method {} form {} {}", name, METHODS[k], FORMS[form as usize], input);
+    match (want, got) {
+        (None, Ok(g)) => out.push(Finding { class: format!("{}:nonconformable-accepted", class), what: format!("{} product returned {:?} for operands whose inner dimensions differ (must panic)", name, g), input }),
+        (Some((w, mag)), Ok(g)) => {
+            let ok = if integer { g == w } else { close(g, w, mag, l) };
+            if !ok { out.push(Finding { class: format!("{}:wrong", class), what: format!("{} product returned {:?}, definition gives {:?}", name, g, w), input }); }
+        }
+        (Some(_), Err(e)) => out.push(Finding { class: format!("{}:conformable-panics", class), what: format!("panicked: {}", e), input }),
+        _ => {}
+    }
 }
